@@ -143,9 +143,12 @@ package compile
 //@   assumed
 //@   modifies *
 //@   keeps map[string]bool
+//@   keeps map[string]parse.Node
+//@   preserves c.identities
 //@   ensures result0 != nil && result1 != nil
 //@ func (*Compiler).assertReferenceStatus
 //@   assumed
+//@   requires c != nil && src != nil && dst != nil
 //@   modifies *
 //@   keeps map[string]bool
 //@   keeps map[parse.Node]bool
@@ -163,7 +166,7 @@ package compile
 //@   loop 0 invariant inmap(featTree, featKey(m, n)) && forallstr(k, implies(old(inmap(featTree, k)), inmap(featTree, k)))
 
 //@ func (*Compiler).identityCheckCyclicRef
-//@   requires c != nil && assigned != nil
+//@   requires c != nil && assigned != nil && inmap(ids, name) && forallstr(k, implies(inmap(ids, k), ids[k] != nil))
 //@   modifies *
 //@   ensures !old(inmap(assigned, name))
 //@   ensures inmap(assigned, name) && forallstr(k, implies(old(inmap(assigned, k)), inmap(assigned, k)))
@@ -289,3 +292,13 @@ package compile
 //@   assumed
 //@   modifies *
 //@   ensures result != nil
+
+// ---------------------------------------------------------------------------
+// References between definitions (C11, C14): the status rule is only ever applied to two existing statements - a
+// reference that cannot be resolved is a compile error, never a nil node.
+//@ func (*Compiler).identityValues
+//@   assumed
+//@   modifies *
+//@ func (*Compiler).getIdentities
+//@   requires c != nil && node != nil && forallstr(k, implies(inmap(c.identities, k), c.identities[k] != nil))
+//@   modifies *
